@@ -7,6 +7,8 @@ from concurrent.futures import ThreadPoolExecutor
 import os; sys.path.insert(0, os.path.dirname(os.path.dirname(os.path.abspath(__file__))))
 from cqverif import scratch
 ALL = ["C01","C02","C03","C04","C05","C06","C07","C08","C09","C10","C12","C14","C15","C16","C17","C18","C19","C20"]
+if os.environ.get("CQV_ONLY"):
+    ALL = os.environ["CQV_ONLY"].split(",")
 roots = sys.argv[1:] or ['/verif/refactors']
 patches = []
 for r in roots:
@@ -14,7 +16,7 @@ for r in roots:
 def job(p):
     return p, scratch.with_change('patch', p, ALL)
 bad = 0
-with ThreadPoolExecutor(max_workers=8) as ex:
+with ThreadPoolExecutor(max_workers=int(os.environ.get("CQV_JOBS", "8"))) as ex:
     for p, r in ex.map(job, patches):
         lab = '/'.join(p.split('/')[-3:-1])
         if 'error' in r:
